@@ -126,6 +126,7 @@ ENTRIES = [
     "transform_array",
     "generator",
     "geometry",
+    "covmodel",
 ]
 
 
@@ -431,7 +432,49 @@ def check_call(case, rec):
         ml = gs.Gaussian(latlon=True, geo_scale=case["geo_scale"], len_scale=0.5 * case["geo_scale"])
         _call(ml.isometrize, ll, _tags=tags)
         sn.verify("latlon CovModel.isometrize")
-    rec.nontrivial(_nontrivial_call(case) or entry in ("geometry", "generator", "transform_array", "normalizer"))
+    elif entry == "covmodel":
+        # parameter arrays handed to a model (constructor and setters): never written to, and not kept by reference
+        cfgk = ["plain", "latlon", "temporal", "latlon_temporal"][case["method"] % 4]
+        d = 3 if cfgk.startswith("latlon") else max(dim, 2)
+        fd = d + (1 if cfgk == "latlon_temporal" else 0)
+        base = {}
+        if cfgk.startswith("latlon"):
+            base.update(latlon=True, geo_scale=case["geo_scale"])
+        else:
+            base["dim"] = d
+        if "temporal" in cfgk:
+            base["temporal"] = True
+        n_an = fd - 1
+        n_ang = fd * (fd - 1) // 2
+        anis = sn.add("anis", _layout(rs.uniform(0.3, 3.0, n_an), "C" if lay == "F" else lay))
+        angles = sn.add("angles", _layout(rs.uniform(-1, 1, n_ang), "C" if lay == "F" else lay))
+        cls = [gs.Gaussian, gs.Exponential, gs.Matern, gs.TPLStable][case["flag"] % 4]
+        how = case["flag"] // 4  # 0: constructor keywords, 1: setters
+        rec.label("covmodel_" + cfgk, "ctor" if how == 0 else "setters")
+        if how == 0:
+            m = _call(cls, anis=anis, angles=angles, _tags=tags, **base)
+            sn.verify("CovModel(anis=ndarray, angles=ndarray)")
+        else:
+            m = _call(cls, _tags=tags, **base)
+            m.anis = anis
+            sn.verify("CovModel.anis = ndarray")
+            m.angles = angles
+            sn.verify("CovModel.angles = ndarray")
+        lsv = sn.add("len_scale", _layout(rs.uniform(0.5, 2.0, fd), "C" if lay == "F" else lay))
+        state0 = (np.array(m.anis), np.array(m.angles), float(m.len_scale))
+        m2 = _call(cls, len_scale=lsv, _tags=tags, **base)
+        sn.verify("CovModel(len_scale=ndarray)")
+        state2 = (np.array(m2.anis), np.array(m2.angles), float(m2.len_scale))
+        # the caller goes on using its own (writeable) arrays
+        for arr in (anis, angles, lsv):
+            if arr.flags.writeable:
+                arr *= -3.0
+        for mm, st0, what in ((m, state0, "anis / angles"), (m2, state2, "len_scale")):
+            st1 = (np.array(mm.anis), np.array(mm.angles), float(mm.len_scale))
+            same = all(np.array_equal(a, b) for a, b in zip(st0[:2], st1[:2])) and st0[2] == st1[2]
+            require(same, f"covmodel: the model changed when the caller's {what} array was edited afterwards: anis {st0[0].tolist()} -> {st1[0].tolist()}, "
+                    f"angles {st0[1].tolist()} -> {st1[1].tolist()}", dict(tags, kind="keeps_reference_to_caller_array", entry=entry))
+    rec.nontrivial(_nontrivial_call(case) or entry in ("geometry", "generator", "transform_array", "normalizer", "covmodel"))
 
 
 # ---------------------------------------------------------------------------
